@@ -20,6 +20,7 @@ its `Cert` record (`slash`, `seteq newRes cert.res`, `all`).
 -/
 import KrillModel.Generated.PureFnsC02
 import KrillModel.Ca.Keys
+import KrillModel.Ca.Child
 namespace KM.Props.C02Src
 open KM.CaK KM.Res
 
@@ -104,5 +105,49 @@ theorem gen_keys_for_requests_eq_model (ks : KeyState) (ent : Entitlement) (now 
     simp only [KM.Gen.C02.KeyState.keys_for_requests, variantOf, currentKey, currentWants, oldWants,
       KeyState.requestKeys]
     by_cases h : c.wantsUpdate ent.res ent.na now = true <;> by_cases h' : o.wantsUpdate ent.res ent.na now = true <;> simp [h, h']
+
+/-! ## The two maps of `ChildCertificates` (`src/server/ca/child.rs`)
+
+`add_issued_certificate`, `unsuspend_certificate`, `suspend_certificate`, `remove_revoked_key` and
+`is_empty` are regenerated as `KM.Gen.C02.ChildCertificates.*`.  `never_overclaims`,
+`shrink_in_same_command`, `shrink_active_child` (Props/C02.lean) and the tidy-maps lemmas (`Ca/LemmasTidy`)
+are about the model's `ChildCerts.addIssued / unsuspend / suspend / removeRevoked`.  With the theorems
+below an edit of one of the four bodies changes a generated definition and this file stops checking – in
+particular the `suspended.remove` of `add_issued_certificate` (fix bb96d233 of F-C02-1; the seeded changes
+C01-r3 and C02-r6 take it out again): `pinned_add_issued_differs` shows that the pinned behaviour is not
+what the generated body does. -/
+
+def insM (m : KM.AMap.AMap KeyId ChildCert) (k : KeyId) (c : ChildCert) := KM.AMap.set m k c
+def remM (m : KM.AMap.AMap KeyId ChildCert) (k : KeyId) := KM.AMap.del m k
+
+theorem gen_add_issued_certificate_eq_model (cs : ChildCerts) (p : KeyId × ChildCert) :
+    KM.Gen.C02.ChildCertificates.add_issued_certificate insM remM (fun _ : ChildCert => p.1) cs.issued cs.suspended p.2 =
+      ((cs.addIssued p).issued, (cs.addIssued p).suspended) := rfl
+
+theorem gen_unsuspend_certificate_eq_model (cs : ChildCerts) (p : KeyId × ChildCert) :
+    KM.Gen.C02.ChildCertificates.unsuspend_certificate insM remM (fun _ : ChildCert => p.1) cs.issued cs.suspended p.2 =
+      ((cs.unsuspend p).issued, (cs.unsuspend p).suspended) := rfl
+
+theorem gen_suspend_certificate_eq_model (cs : ChildCerts) (p : KeyId × ChildCert) :
+    KM.Gen.C02.ChildCertificates.suspend_certificate insM remM (fun _ : ChildCert => p.1) cs.issued cs.suspended p.2 =
+      ((cs.suspend p).issued, (cs.suspend p).suspended) := rfl
+
+theorem gen_remove_revoked_key_eq_model (cs : ChildCerts) (k : KeyId) :
+    KM.Gen.C02.ChildCertificates.remove_revoked_key insM remM cs.issued cs.suspended k =
+      ((cs.removeRevoked k).issued, (cs.removeRevoked k).suspended) := rfl
+
+/-- `is_empty` looks at BOTH maps (it is the serde skip predicate of the class's certificates). -/
+theorem gen_is_empty_iff (cs : ChildCerts) :
+    KM.Gen.C02.ChildCertificates.is_empty (fun m : KM.AMap.AMap KeyId ChildCert => m.isEmpty) cs.issued cs.suspended = true ↔
+      cs.issued = [] ∧ cs.suspended = [] := by
+  simp [KM.Gen.C02.ChildCertificates.is_empty, List.isEmpty_iff]
+
+/-- The pinned `add_issued_certificate` (before bb96d233: no `suspended.remove`) differs from the generated
+body on a key that is suspended. -/
+theorem pinned_add_issued_differs (k : KeyId) (c : ChildCert) :
+    let cs : ChildCerts := { issued := [], suspended := [(k, c)] }
+    (KM.Gen.C02.ChildCertificates.add_issued_certificate insM remM (fun _ : ChildCert => k) cs.issued cs.suspended c).2 ≠
+      (cs.pinnedAddIssued (k, c)).suspended := by
+  simp [KM.Gen.C02.ChildCertificates.add_issued_certificate, remM, KM.AMap.del, ChildCerts.pinnedAddIssued]
 
 end KM.Props.C02Src
